@@ -7,11 +7,17 @@ cause). Pairs that fail but do not match the predicate are printed and are NOT l
 import gzip, json, os, subprocess, sys, tempfile
 
 PREDICATES = {
+    # an unknown identifier substituted into the EXTENDERS clause of a generated rule is accepted
+    "C02-F1": lambda case, clause: clause == "accepted-ill-formed" and case.get("kind") == "corrupt" and case.get("op") == "replace"
+    and case.get("rep") == "zz" and bool(case.get("ext")),
     # a Prepeptide on the frame-shifted gene of the 'codonstart' layout
     "C10-F1": lambda case, clause: case.get("layout") == "codonstart" and "prepeptide" in case.get("extras", ())
     and clause in ("genbank-description-differs", "genbank-not-a-fixed-point", "json-description-differs", "json-not-a-fixed-point"),
     # free-text qualifier values longer than a GenBank line without a space to wrap at
     "C10-F2": lambda case, clause: case.get("sideload") == "unbreakable-values" and clause == "genbank-description-differs",
+    # a region ending exactly at the frame-adjusted end of a codon_start gene
+    "C12-F3": lambda case, clause: case.get("layout") == "origin-reverse-codonstart" and case.get("sideload") == "origin-protos"
+    and clause in ("region-genes-differ", "region-file-not-loadable"),
     # the same root cause as C10-F2 seen through a region file
     "C12-F2": lambda case, clause: case.get("sideload") == "unbreakable-values"
     and clause in ("feature-missing-or-shifted", "feature-unexpected", "subregions-differ"),
